@@ -156,6 +156,11 @@ Theorem c13_refuted_item_suppressed_header :
 Proof. exact refuted_item_suppressed_header. Qed.
 Print Assumptions c13_refuted_item_suppressed_header.
 
+Theorem c13_refuted_item_suppressed_twice :
+  unanswered [I_Sec true S_Header None; I_Sec true S_Header (Some (3, 5))] item_suppressed.
+Proof. exact refuted_item_suppressed_twice. Qed.
+Print Assumptions c13_refuted_item_suppressed_twice.
+
 Theorem c13_refuted_rfc822_renamed : unanswered [I_Simple (S_ "RFC822")] rfc822_renamed.
 Proof. exact refuted_rfc822_renamed. Qed.
 Print Assumptions c13_refuted_rfc822_renamed.
